@@ -442,8 +442,13 @@ def evGithubFailed (st : State) : State := { st with githubChanged := true }
 /-- the same step BEFORE commit 9f64769b0: the flag stayed cleared -/
 def evGithubFailedOld (st : State) : State := { st with githubChanged := false }
 
+/-- the batch refresh fails at its first request (`batch_client.list_batches(…)` of the first PR raises): the pass of `_update` is
+aborted by the exception; `batch_changed` was already cleared (nothing restores it), no PR has been touched -/
+def evBatchFailed (st : State) : State := { st with batchChanged := false }
+
 inductive Event where
   | flag (e : Entry)
+  | batchFailed
   | githubFailed
   | github (snap : Snapshot)
   | batch
@@ -453,6 +458,7 @@ deriving DecidableEq, Repr
 
 def step (fix : Bool) (st : State) : Event → State × List Out
   | .flag e => (evFlag st e, [])
+  | .batchFailed => (evBatchFailed st, [])
   | .githubFailed => (evGithubFailed st, [])
   | .github s => (evGithub st s, [])
   | .batch => (evBatch fix st, [])
